@@ -19,7 +19,8 @@ KINDS = {1: 'model and code disagree on the outcome class (ok / error / panic) o
          21: 'accepted although the proof height is above the head or the confirmation blocks have not passed',
          22: 'accepted although the world committed at the proof height does not hold this value at this slot of the '
              'configured contract',
-         23: 'honest proof of a held value (same revision as the head, confirmations passed) not accepted'}
+         23: 'honest proof of a held value (same revision as the head, confirmations passed) not accepted',
+         24: 'accepted although the decoded proof record does not carry exactly one storage proof'}
 COPY = {0: 'eth', 1: 'bsc'}
 
 
